@@ -238,6 +238,39 @@ def r3_zip_enumerate(text):
         n += 1
 
 
+def r8_assert_eq(text):
+    """`assert_eq!(A, B);` => `assert!(A == B);` (same panic condition; Verus has no spec for assert_failed)"""
+    toks = lex(text)
+    edits, n = [], 0
+    for k, t in enumerate(toks):
+        if t.kind == 'ident' and t.text == 'assert_eq' and toks[k + 1].text == '!' and toks[k + 2].text == '(':
+            close = match_close(toks, k + 2)
+            parts = _split_commas(toks, k + 2, close)
+            if len(parts) != 2:
+                raise Unsupported('R8: assert_eq! with a message')
+            a = text[toks[parts[0][0]].start:toks[parts[0][1]].end]
+            b = text[toks[parts[1][0]].start:toks[parts[1][1]].end]
+            nl = text[toks[k].start:toks[close].end].count('\n')
+            edits.append((toks[k].start, toks[close].end, f'assert!(({a}) == ({b}))' + '\n' * nl))
+            n += 1
+    return _apply_edits(text, edits), n
+
+
+def r9_subslice_copy(text):
+    """`V[A..].copy_from_slice(S);` => `assert!(V.len() - A == S.len()); for k__N in 0..S.len() { V[A + k__N] = S[k__N]; }`
+    (Verus does not model a mutable sub-slice borrow of a Vec; the length check keeps the panic condition)."""
+    n = 0
+    while True:
+        m = re.search(r'(?m)^(\s*)([A-Za-z_][A-Za-z0-9_]*)\[([A-Za-z0-9_]+)\.\.\]\.copy_from_slice\(&?([A-Za-z_][A-Za-z0-9_]*)\);[ \t]*$', text)
+        if not m:
+            return text, n
+        n += 1
+        ind, v, a, src = m.groups()
+        k = f'k__{n}'
+        new = (f'{ind}assert!(({v}.len() - {a}) == ({src}.len())); for {k} in 0..{src}.len() {{ {v}[{a} + {k}] = {src}[{k}]; }}')
+        text = text[:m.start()] + new + text[m.end():]
+
+
 def r7_param_patterns(text):
     """`fn f(.., StructPat { a: x, b: y }: &T, ..) {` => `fn f(.., p__1: &T, ..) { let StructPat { a: x, b: y } = p__1;`
     (Verus: function inputs must be identifiers)."""
@@ -272,7 +305,7 @@ def r7_param_patterns(text):
     return _apply_edits(text, edits), n
 
 
-RULES = [('R0', r0_visibility_and_stats), ('R1', r1_ref_patterns), ('R7', r7_param_patterns),
+RULES = [('R0', r0_visibility_and_stats), ('R1', r1_ref_patterns), ('R7', r7_param_patterns), ('R8', r8_assert_eq), ('R9', r9_subslice_copy),
          ('R2', r2_array_literal_loops), ('R3', r3_zip_enumerate)]
 
 
